@@ -642,6 +642,8 @@ def check_block_seek(ctx):
 
 
 def check(ctx):
+    from . import tablefmt as _tf2
+    _tf2.check_twoiter_status(ctx)   # an error met while skipping blocks stays visible
     check_block_seek(ctx)
     check_db_iter(ctx)
     check_seek_helpers(ctx)
@@ -649,6 +651,8 @@ def check(ctx):
     check_two_level(ctx)
     from . import c06, c13, c14
     c14.check_level_loops(ctx)     # an iterator has a child for every level
+    from . import c10 as _c10
+    _c10.check_static_locals(ctx)  # what an iterator returns is its own storage, not a buffer shared with other iterators
     from . import c04
     c04.check_write(ctx)           # an iterator's sequence never covers a batch that is still being inserted
     c06.check_iter_filter(ctx)     # entries newer than the iterator's sequence are hidden, tombstones hide older values
